@@ -298,6 +298,7 @@ TRUSTED_BASE = [
     "Lean 4.33.0 kernel; Mathlib v4.33.0 where imported",
     "axioms: propext, Classical.choice, Quot.sound only (audited with #print axioms on every obligation each run); no native_decide, no bv_decide, no sorry/admit, no axioms of our own",
     "tools/extract.py: AST extraction of constants/tables from /repo into lean/PysersicModel/Gen/Consts.lean (cross-checked by the behavioural correspondence)",
+    "tools/translate.py: translation of the straight-line scalar kernels of /repo into lean/PysersicModel/Gen/Kernels.lean (its reading of Python is validated each run by evaluating the translated definitions at Float against the real functions; a kernel it cannot read keeps the committed text)",
     "harness/*.py and the compiled driver's I/O (correspondence between the executable Lean model and the real code on identical inputs)",
     "theorems speak about ideal real/integer/string semantics of the model; IEEE rounding, XLA, numpyro handlers and third-party libraries are modelled, not verified (see DESIGN.md section 6)",
 ]
